@@ -166,10 +166,18 @@ Section Tl.
 
   Definition bslice (d : list N) (a b : nat) : list N := firstn (b - a) (skipn a d).
 
+  (* `subtype in self.base_types` for a vector element type, and the argument list {'': subtype} it is parsed with *)
+  Definition is_base_ty (ty : tltype) : bool :=
+    match ty with TFixed _ _ | TBytes | TString => true | _ => false end.
+  Definition elem_ctor (el : tltype) : tl_ctor := mkCtor [] "" "" [mkArg "" None false el].
+
   (* bit `index` of the flags value, as `bin(x)[::-1][index] == '1'`; None when mode/flags is missing *)
   Definition flag_set (fields : list (string * tv)) (index : nat) : result bool :=
     match (match assoc fields "mode" with Some x => Some x | None => assoc fields "flags" end) with
-    | Some (TVInt z) => if z <? 0 then Ok (Z.testbit (- z) (Z.of_nat index)) else Ok (Z.testbit z (Z.of_nat index))
+    | Some (TVInt z) =>
+        (* z < 0: bin(z) = '-0b...', so the mask is the reversed digits of |z| followed by '-', and '-' is not '0' *)
+        if z <? 0 then Ok (Z.testbit (- z) (Z.of_nat index) || (Z.of_nat index =? Z.log2 (- z) + 1))
+        else Ok (Z.testbit z (Z.of_nat index))
     | _ => Err EType
     end.
 
@@ -244,7 +252,15 @@ Section Tl.
                        match k with
                        | O => Ok (i, acc)
                        | S k' =>
-                           bind (if named then deser f (skipn i d) false (by_name tbl elname)
+                           bind (if is_base_ty el then
+                                   (* an element of a base type is read like a field of that type:
+                                      deserialize(data[i:], False, {'': subtype}) and then deser[''] *)
+                                   bind (deser f (skipn i d) false (Some (elem_ctor el))) (fun '(x, j) =>
+                                   match x with
+                                   | TVObj _ xs => match assoc xs "" with Some y => Ok (y, j) | None => Err EIndex end
+                                   | _ => Err EIndex
+                                   end)
+                                 else if named then deser f (skipn i d) false (by_name tbl elname)
                                  else deser f (skipn i d) true None) (fun '(x, j) => loop k' (i + j)%nat (acc ++ [x]))
                        end) n i1 []) (fun '(i2, items) => Ok (i2, fs ++ [(a_field a, TVVec items)]))
           | TBare nm =>
